@@ -8,6 +8,11 @@ from .common import is_ok
 ERRNOS = {"EIO": _errno.EIO, "ENOSPC": _errno.ENOSPC, "EACCES": _errno.EACCES}
 
 
+# operations that need free space (ENOSPC is a documented errno of each); removals, truncation and reads still work on a full disk
+SPACE = {"open:w", "os.open:w", "f.write", "f.writelines", "f.flush", "f.close", "mkdir", "rename", "replace", "link", "symlink",
+         "sendfile"}
+
+
 def is_site(ev):
     """Mutating operations and opens (for reading or writing) are fault sites; stat-class probes are not."""
     return not ev.is_probe
@@ -29,6 +34,19 @@ class Injector:
     def __call__(self, ev):
         if not is_site(ev):
             return
+        if self.sticky == "full":
+            # "the disk fills up": from the k-th space-consuming operation on, EVERY space-consuming operation fails
+            if ev.kind not in SPACE:
+                return
+            if self.fired is not None:
+                self.later += 1
+                self._raise(ev)
+            if self.n == self.k:
+                self.fired = ev
+                self.bad_path = ev.dest
+                self._raise(ev)
+            self.n += 1
+            return
         if self.fired is not None:
             if self.sticky and self.bad_path in ev.paths:
                 self.later += 1
@@ -42,7 +60,9 @@ class Injector:
 
     def describe(self):
         ev = self.fired
-        return (f"{self.errno_name} {'persisting for the destination' if self.sticky else 'once'} at site "
+        how = "from then on at every operation that needs space (disk full)" if self.sticky == "full" else \
+            "persisting for the destination" if self.sticky else "once"
+        return (f"{self.errno_name} {how} at site "
                 f"#{self.k} [{ev.brief(self.root) if ev else '-'}]")
 
 
